@@ -245,7 +245,7 @@ pub fn run(cfg: &Cfg, out: &mut Out) {
     for r in ["", "git", "a", "a/b", "/a", "a/", "a//b", "gi", "gitt", "git/x", "x_y-0"] { validate_case(out, &mut st, r); }
     out.note("export observed through git::export_refs on a Git-backed repo (one symbol per export); validate through git::rename_remote; parse_git_ref called directly".into());
     let mut r = cfg.rng(33);
-    for _ in 0..cfg.n(2000, 60_000) {
+    for _ in 0..cfg.n(2000, 30_000) {
         let kind = if r.chance(2, 3) { GitRefKind::Bookmark } else { GitRefKind::Tag };
         let (n, rem) = (gen_name(&mut r), gen_remote(&mut r));
         symbol_case(out, &mut st, kind, &n, &rem);
